@@ -46,7 +46,7 @@ class World:
     def __init__(self, header, stats, scratch=None):
         self.header = header
         self.stats = stats
-        self.model_specs = header["models"]
+        self.model_specs = list(header["models"])
         self.bases = [[gm.build_basis(s) for s in spec["sites"]] for spec in self.model_specs]
         self.models = [gm.build_model(spec, basis) for spec, basis in zip(self.model_specs, self.bases)]
         self.h = {}
@@ -57,6 +57,8 @@ class World:
         self.changed = set()     # handles the current step is documented to change
         self.created = set()
         self.foreign = []
+        from simlab.core import Digest
+        self.xdigest = Digest()   # digest of results that must be bit-identical under every PYTHONHASHSEED class
 
     # ------------------------------------------------------------ helpers
     def new_handle(self):
@@ -212,6 +214,11 @@ class World:
             self.stats.ops["skipped"] += 1
             return status
         self.stats.ops[op] += 1
+        # in-place numeric changes de-synchronise the symbolic form that try_swap_site rebuilds the two sites from
+        if op != "swap":
+            for hname in self.changed:
+                if hname in self.h:
+                    self.h[hname].meta.pop("symbolic", None)
         # --- whole-population invariants
         for hname in list(self.created) + list(self.changed):
             if hname in self.h:
@@ -266,6 +273,7 @@ def op_mpo(w, s):
     terms = [gm.build_op(t) for t in s["terms"]]
     offset = s.get("offset", 0.0)
     ref = dense.dense_op(model, terms, offset)
+    rng_before = np.random.get_state()[1].copy()
     try:
         mpo = Mpo(model, terms, offset=Quantity(offset), algo=s.get("algo", "qr"))
     except ValueError as ex:
@@ -274,8 +282,59 @@ def op_mpo(w, s):
             w.stats.probes["zero_operator_refused"] += 1
             return "skipped"
         raise
-    w.put(s["out"], "mpo", mpo, ref, s["mid"], {"terms": s["terms"], "offset": offset})
+    if not np.array_equal(rng_before, np.random.get_state()[1]):
+        raise V({"C01"}, "C01.mpo.consumes_rng", "Mpo construction drew from the global numpy random stream")
+    w.put(s["out"], "mpo", mpo, ref, s["mid"], {"terms": s["terms"], "offset": offset, "symbolic": True})
     w.check_value(s["out"], {"C01"}, "C01.mpo.dense", what=f"Mpo(algo={s.get('algo', 'qr')})")
+    w.xdigest.add("mpo", [np.asarray(mpo[i].array) for i in range(len(mpo))][0].shape, *[np.asarray(mpo[i].array) for i in range(len(mpo))])
+    if np.abs(ref).max() > 0 and np.allclose(ref, ref.conj().T) and not np.allclose(dense.dense_of(mpo), dense.dense_of(mpo).conj().T, atol=1e-9 * np.abs(ref).max()):
+        raise V({"C01"}, "C01.mpo.hermiticity", "Hermitian term list gave a non-Hermitian MPO")
+    return "done"
+
+
+@op("swap")
+def op_swap(w, s):
+    """Exchange two adjacent sites of an operator built from terms (in place, as on-the-fly swapping does)."""
+    if not w.live_ok(s["a"]):
+        return "skipped"
+    e = w.h[s["a"]]
+    if e.kind != "mpo" or not e.meta.get("symbolic"):
+        return "skipped"
+    n = len(e.obj)
+    i = s["i"]
+    if not (0 <= i < n - 1):
+        return "skipped"
+    old_model = e.obj.model
+    basis = list(old_model.basis)
+    basis[i], basis[i + 1] = basis[i + 1], basis[i]
+    from renormalizer.model import Model
+    new_model = Model(basis, old_model.ham_terms)
+    spec = dict(w.model_specs[e.mid])
+    sites = list(spec["sites"])
+    sites[i], sites[i + 1] = sites[i + 1], sites[i]
+    spec["sites"] = sites
+    pd_old = dense.pdims(old_model)
+    perm = list(range(n))
+    perm[i], perm[i + 1] = perm[i + 1], perm[i]
+    rng_before = np.random.get_state()[1].copy()
+    bonds_before = list(e.obj.bond_dims)
+    w.changed.add(s["a"])
+    try:
+        e.obj.try_swap_site(new_model, swap_jw=False, algo=s.get("algo", "Hopcroft-Karp"))
+    except Exception as ex:
+        raise V({"C01", "C17"}, "C01.swap.raised", f"try_swap_site({i},{i + 1}) algo={s.get('algo')}: {type(ex).__name__}: {ex}", sig=f"C01.swap.raised:{type(ex).__name__}")
+    if not np.array_equal(rng_before, np.random.get_state()[1]):
+        raise V({"C01"}, "C01.swap.consumes_rng", "try_swap_site drew from the global numpy random stream")
+    e.shadow = dense.permute_sites_op(e.shadow, pd_old, perm)
+    w.models.append(new_model)
+    w.model_specs.append(spec)
+    w.bases.append(basis)
+    e.mid = len(w.models) - 1
+    if e.obj.model is not new_model:
+        raise V({"C01", "C17"}, "C01.swap.model", "operator does not carry the new model after the swap")
+    w.check_value(s["a"], {"C01", "C17"}, "C01.swap.dense", what=f"swap sites {i},{i + 1} (algo={s.get('algo')})")
+    w.xdigest.add("swap", *[np.asarray(e.obj[k].array) for k in range(n)])
+    w.stats.probes["site_swaps"] += 1
     return "done"
 
 
@@ -415,7 +474,7 @@ def op_unary(w, s):
     else:
         raise HarnessError(which)
     w.cur_op = which
-    w.put(s["out"], e.kind, res, ref, e.mid)
+    w.put(s["out"], e.kind, res, ref, e.mid, {"symbolic": True} if (which == "copy" and e.meta.get("symbolic")) else None)
     w.check_value(s["out"], {"C03"}, f"C03.{which}.dense", what=which)
     if which == "to_complex" and not res.is_complex:
         raise V({"C03"}, "C03.to_complex.dtype", "to_complex returned a real object")
@@ -950,6 +1009,15 @@ def p_mpo(w, rnd):
             return None
     return {"op": "mpo", "mid": mid, "terms": terms, "algo": rnd.choice(["qr", "Hopcroft-Karp", "Hungarian"]),
             "offset": rnd.choice([0.0, 0.0, round(rnd.uniform(-1, 1), 3)]) if charge == [0] * spec["qn_size"] else 0.0, "out": w.new_handle()}
+
+
+@prop("swap")
+def p_swap(w, rnd):
+    hs = w.handles("mpo", pred=lambda e: e.meta.get("symbolic") and len(e.obj) >= 2)
+    if not hs or len(w.models) > 40:
+        return None
+    a = rnd.choice(hs)
+    return {"op": "swap", "a": a, "i": rnd.randrange(len(w.h[a].obj) - 1), "algo": rnd.choice(["Hopcroft-Karp", "qr", "Hungarian"])}
 
 
 @prop("mpo_identity")
